@@ -12,7 +12,7 @@
    Everything is written over sequences of UTF-16 code units (integers); the strings that appear in edge labels are
    their rendering Show(..): printable ASCII except '<' as itself, every other unit as <hhhh>.
 
-   Part 1 (Mode = "parse").  ParseText is the recursive-descent reading of the grammar (JSONText, JSONValue, JSONObject,
+   Part 1 (plans of mode "parse").  ParseText is the recursive-descent reading of the grammar (JSONText, JSONValue, JSONObject,
    JSONMember, JSONArray, JSONString with every escape form, JSONNumber, the three literals, the four white space
    characters) that also builds the ECMAScript value: objects through CreateDataProperty semantics (a duplicate key
    overwrites the value and keeps the first position; "__proto__" is an ordinary key; own keys are reported as array
@@ -25,10 +25,11 @@
    the value plus the text JSON.stringify must produce for it.  Edit edges (self loops) carry the outcome for every
    single-character deletion / replacement / insertion of the current text.  A text on which the automaton is dead
    (no continuation can be accepted) is only probed by a self loop, never extended.
-   TLC checks: both formulations agree on every text and every corruption (Agree), the canonical form is a fixed point
+   TLC checks: both formulations agree on every text, every probe and every corruption (Agree, the Asserts in Append1 and
+   Edit), the canonical form is a fixed point
    and JSON-representable values round-trip (RoundTrip), parsed objects have unique keys in own-key order (WellFormedInv).
 
-   Part 2 (Mode = "str").  The state is an ECMAScript value built member by member (objects with index / string /
+   Part 2 (plans of mode "str").  The state is an ECMAScript value built member by member (objects with index / string /
    "__proto__" / non-enumerable keys in any insertion order, arrays with holes, -0, non-finite numbers, BigInt,
    symbols, functions, boxed primitives, toJSON methods, Date, forwarding proxies, a cyclic and a shared reference).
    Ser is SerializeJSONProperty as a function from (replacer, key, value) to a JSON tree / undefined / TypeError, Txt
@@ -38,7 +39,10 @@
    TLC checks: for every value, replacer and gap the specified text is accepted by ParseText and parses back to the
    serialisation tree (ParsesBack), and JSON-representable values come back unchanged (ReprRoundTrip).
 
-   Documented exception (not generated): lone surrogates in JSON.parse input.  Not modelled: reviver functions other
+   Documented exception: lone surrogates in JSON.parse input (goja replaces them by U+FFFD).  ParseText specifies such texts
+   like all others but flags them (field d) and no edge is generated for them; a stringify text with an escaped lone
+   surrogate is compared as text and not parsed back (label field pb).  Texts whose numerals are outside the domain of
+   NumRender are not generated either.  Not modelled: reviver functions other
    than the identity (checked by the adaptor), inherited properties named by an allow-list, user-defined valueOf /
    toString on boxed primitives, getters.
 
@@ -634,11 +638,14 @@ StrPlan(kinds, keys, maxnodes, reps, inds) ==
    kinds |-> kinds, keys |-> keys, maxnodes |-> maxnodes, reps |-> reps, inds |-> inds]
 NoPlan == [mode |-> "none", pieces |-> {}, maxsteps |-> 0, editchars |-> {}, editon |-> "none", kinds |-> {}, keys |-> {}, maxnodes |-> 0, reps |-> {}, inds |-> {}]
 \* every string over the structural tokens, one representative of each value class and a blank; corruptions of the accepted ones
-PlanStruct == ParsePlan({"lb", "rb", "lc", "rc", "cm", "cl", "sA", "n1", "true", "sp"}, IF Big THEN 7 ELSE 5, {44, 34, 93}, "accepted")
+PlanStruct == ParsePlan({"lb", "rb", "lc", "rc", "cm", "cl", "sA", "n1", "true", "sp"}, IF Big THEN 8 ELSE 5, {44, 34, 93}, "accepted")
 \* every lexeme representative (valid and malformed numbers, strings, literals, blanks) in every short context
-PlanLex == ParsePlan({"lb", "rb", "cm"} \cup NumPieces \cup BadNumPieces \cup StrPieces \cup BadStrPieces \cup LitPieces \cup WsPieces, IF Big THEN 4 ELSE 3, {}, "none")
+PlanLex == ParsePlan({"lb", "rb", "cm"} \cup NumPieces \cup BadNumPieces \cup StrPieces \cup BadStrPieces \cup LitPieces \cup WsPieces, 3, {}, "none")
+\* (thorough) the same one piece longer, separately for numbers and for strings / literals
+PlanLexNum == ParsePlan({"lb", "rb", "cm"} \cup NumPieces \cup BadNumPieces \cup WsPieces, 4, {}, "none")
+PlanLexStr == ParsePlan({"lb", "rb", "cm", "lc", "rc", "cl"} \cup StrPieces \cup BadStrPieces \cup LitPieces \cup {"sp", "nbsp"}, 4, {}, "none")
 \* objects: duplicate keys, "__proto__", index and non-index keys in every order
-PlanMembers == ParsePlan({"lc", "rc", "cm", "sp"} \cup (IF Big THEN MemberPieces ELSE MemberPieces \ {"mu61", "mneg0", "m01", "me8"}), IF Big THEN 8 ELSE 6, {}, "none")
+PlanMembers == ParsePlan({"lc", "rc", "cm", "sp"} \cup (IF Big THEN MemberPieces ELSE MemberPieces \ {"mu61", "mneg0", "m01", "me8"}), IF Big THEN 7 ELSE 6, {}, "none")
 \* nesting of arrays and objects up to 8 (thorough 12) levels
 PlanDeep == ParsePlan({"open4", "close4", "oopen", "oclose", "n1", "cm", "lb", "rb", "lc", "rc", "maobj", "maarr", "sA", "cl"}, IF Big THEN 6 ELSE 5, {}, "none")
 \* single-character corruptions of texts with every white space placement, every escape form, exponent forms
@@ -656,7 +663,7 @@ PlanProxy == StrPlan({"pxobj", "pxarr", "n1", "undef", "hole", "cyc"}, {"a", "1"
 \* own-key order (array indices first), "__proto__", non-enumerable and escaped keys x allow-lists
 PlanKeys == StrPlan({"obj", "n1"}, {"a", "b", "1", "10", "__proto__", "h"} \cup (IF Big THEN {"0", "9", "q", "empty"} ELSE {}), 4,
                     {"none", "allow_ba", "allow_h", "allow_mixed", "allow_nums"}, {"none", "n2"})
-PlanOf(nm) == CASE nm = "struct" -> PlanStruct [] nm = "lex" -> PlanLex [] nm = "members" -> PlanMembers [] nm = "deep" -> PlanDeep
+PlanOf(nm) == CASE nm = "struct" -> PlanStruct [] nm = "lex" -> PlanLex [] nm = "lexnum" -> PlanLexNum [] nm = "lexstr" -> PlanLexStr [] nm = "members" -> PlanMembers [] nm = "deep" -> PlanDeep
                 [] nm = "edits" -> PlanEdits [] nm = "editlex" -> PlanEditLex
                 [] nm = "shape" -> PlanShape [] nm = "leaves" -> PlanLeaves [] nm = "indent" -> PlanIndent [] nm = "proxy" -> PlanProxy
                 [] nm = "keys" -> PlanKeys [] nm = "none" -> NoPlan
